@@ -16,7 +16,10 @@ The behaviour BEFORE the patches is kept as `stepOld` (the tests came after the 
 `InitAlertingService` returned at the first alert it could not schedule).  Rows that no request can produce any
 more but an older version may have left in the database are reachable through the operations `legacyInterval`
 / `legacyType` (the harness rewrites the row directly).  Alerts are numbered by create ATTEMPT (1, 2, …).
-Only Logs alerts are created by the suite (a Metrics alert needs a metrics query); core Lean only.
+Logs alerts and (`createMetrics`) Metrics alerts are created by the suite; core Lean only.
+WITH patch c20-17 the create / update handlers also refuse an EvalInterval above `maxInterval` minutes (the
+interval must fit the time.Duration the scheduler keeps); `cronSeconds` is `int(EvalInterval*60)` as `AddCronJob`
+computes it (uint64 product, converted to a 64-bit int) and `schedulableOld` what gocron made of it before.
 -/
 namespace SigModel.AlertSet
 
@@ -35,6 +38,7 @@ deriving Repr, DecidableEq
 
 inductive Op where
   | create (window interval : Nat)        -- POST create, Logs alert
+  | createMetrics (window interval : Nat) -- POST create, Metrics alert (alert_type 2 with a metrics query)
   | createTyped (type : Nat)              -- POST create with window 1, interval 1 and the given alert_type
   | edit (k window interval : Nat)        -- POST update of alert k (Logs)
   | delete (k : Nat)
@@ -50,9 +54,18 @@ deriving Repr, DecidableEq
 /-- `AddCronJob` succeeds -/
 def schedulable (r : Row) : Bool := r.interval != 0 && (r.type == 1 || r.type == 2)
 
-/-- the tests of the create / update handlers (patched): interval > 0, window ≥ interval, type Logs or Metrics -/
+/-- `math.MaxInt64 / int64(time.Minute)`: the longest EvalInterval (minutes) that fits a time.Duration -/
+def maxInterval : Nat := 153722867
+
+/-- `int(alertDataObj.EvalInterval * 60)` of `AddCronJob`: a uint64 product converted to a 64-bit int -/
+def cronSeconds (interval : Nat) : Int :=
+  let u : Nat := (interval * 60) % 2 ^ 64
+  if u < 2 ^ 63 then Int.ofNat u else Int.ofNat u - Int.ofNat (2 ^ 64)
+
+/-- the tests of the create / update handlers (patched): interval > 0, window ≥ interval, type Logs or Metrics,
+and (c20-17) interval ≤ maxInterval -/
 def accepted (window interval type : Nat) : Bool :=
-  interval != 0 && !decide (window < interval) && (type == 1 || type == 2)
+  interval != 0 && !decide (window < interval) && (type == 1 || type == 2) && decide (interval ≤ maxInterval)
 
 def hasRow (s : St) (k : Nat) : Bool := s.rows.any (fun r => r.idx == k)
 
@@ -67,6 +80,7 @@ def createRow (s : St) (window interval type : Nat) : St × Ans :=
 
 def step (s : St) : Op → St × Ans
   | .create w i => createRow s w i 1
+  | .createMetrics w i => createRow s w i 2
   | .createTyped t => createRow s 1 1 t
   | .edit k w i =>
     if hasRow s k && accepted w i 1 then
@@ -96,22 +110,27 @@ def init : St := {}
 refused Minion alerts and let every unknown type pass -/
 def acceptedOld (window interval type : Nat) : Bool := !decide (window < interval) && type != 3
 
+/-- `AddCronJob` succeeded (before patch c20-17 nothing bounded the interval): the type is Logs or Metrics and gocron
+accepts `Every(int(EvalInterval*60))`, i.e. the wrapped product is positive -/
+def schedulableOld (r : Row) : Bool := decide (0 < cronSeconds r.interval) && (r.type == 1 || r.type == 2)
+
 def createRowOld (s : St) (window interval type : Nat) : St × Ans :=
   if acceptedOld window interval type then
     let r : Row := { idx := s.next, window := window, interval := interval, type := type }
     -- the row is stored; the request is answered by what AddCronJob says
-    if schedulable r then ({ next := s.next + 1, rows := s.rows ++ [r], jobs := s.jobs ++ [s.next] }, .ok)
+    if schedulableOld r then ({ next := s.next + 1, rows := s.rows ++ [r], jobs := s.jobs ++ [s.next] }, .ok)
     else ({ next := s.next + 1, rows := s.rows ++ [r], jobs := s.jobs }, .refused)
   else ({ s with next := s.next + 1 }, .refused)
 
 def stepOld (s : St) : Op → St × Ans
   | .create w i => createRowOld s w i 1
+  | .createMetrics w i => createRowOld s w i 2
   | .createTyped t => createRowOld s 1 1 t
   | .edit k w i =>
     if hasRow s k && acceptedOld w i 1 then
       let rows := setRow s.rows k (fun r => { r with window := w, interval := i, type := 1 })
       -- row saved, old job removed; the new job exists only when AddCronJob succeeds
-      if i != 0 then ({ s with rows := rows, jobs := s.jobs.filter (fun j => j != k) ++ [k] }, .ok)
+      if decide (0 < cronSeconds i) then ({ s with rows := rows, jobs := s.jobs.filter (fun j => j != k) ++ [k] }, .ok)
       else ({ s with rows := rows, jobs := s.jobs.filter (fun j => j != k) }, .refused)
     else (s, .refused)
   | .restart => ({ s with jobs := (s.rows.takeWhile schedulable).map (·.idx) }, .none)
